@@ -246,6 +246,34 @@ def extra_obligations(w, tier, seed):
     out_extra = [dict(id='scan/sdl_to_ddl/deps-normalised-by-full-name', kind='shape', tag='property', paths=1, status='discharged' if okn else ('failed' if badn else 'unknown'), backend='ast-scan', seconds=0.0,
                       clause='declarative.sdl_to_ddl hands the sorter dependency sets ordered by sorted(<names>) with the default (full qualified name) ordering',
                       model=None if okn else {'offending_source_location': badn or [ast.unparse(n) for n in norm]}, where='; '.join(ast.unparse(n) for n in norm), function='ast-scan')]
+    # determinism of the sorter itself: every container whose ITERATION ORDER decides the visit order in topological.sort_ex (the adjacency maps, and whatever else is
+    # looped over in sort_ex / visit) keeps insertion order -- a hash-ordered set makes the emitted order (and which cycle is reported) depend on PYTHONHASHSEED
+    fn3, _ = repo.find_def('edb/common/topological.py', 'sort_ex')
+    factories = {}
+    for n in ast.walk(fn3):
+        tgt = n.targets[0] if isinstance(n, ast.Assign) and len(n.targets) == 1 else (n.target if isinstance(n, ast.AnnAssign) else None)
+        val = getattr(n, 'value', None)
+        if isinstance(tgt, ast.Name) and isinstance(val, ast.Call):
+            f = ast.unparse(val.func)
+            if f == 'defaultdict' and val.args: factories[tgt.id] = ('elem', ast.unparse(val.args[0]))
+            elif f in ('set', 'frozenset', 'OrderedSet', 'list', 'dict'): factories[tgt.id] = ('self', f)
+        elif isinstance(tgt, ast.Name) and isinstance(val, (ast.Set, ast.SetComp)): factories[tgt.id] = ('self', 'set')
+    iterated = []
+    for n in ast.walk(fn3):
+        its = [n.iter] if isinstance(n, ast.For) else [g.iter for g in n.generators] if isinstance(n, (ast.ListComp, ast.GeneratorExp, ast.SetComp, ast.DictComp)) else []
+        for it in its:
+            base = it
+            while isinstance(base, (ast.Subscript, ast.Call, ast.Attribute)):
+                base = base.value if isinstance(base, (ast.Subscript, ast.Attribute)) else base.func
+            if isinstance(base, ast.Name) and base.id in factories:
+                kind, f = factories[base.id]
+                if (kind == 'elem' and isinstance(it, ast.Subscript)) or (kind == 'self' and isinstance(it, ast.Name)): iterated.append((n.lineno, ast.unparse(it), f))
+    bad_it = ['line %d: iterates %s (%s)' % x for x in iterated if x[2] in ('set', 'frozenset')]
+    adj_ok = all(factories.get(nm) == ('elem', 'OrderedSet') for nm in ('adj', 'weak_adj', 'loop_control'))
+    ok3 = adj_ok and not bad_it and len(iterated) >= 3
+    out_extra.append(dict(id='scan/sort_ex/iteration-order-is-insertion-order', kind='shape', tag='property', paths=1, status='discharged' if ok3 else ('failed' if bad_it else 'unknown'), backend='ast-scan', seconds=0.0,
+                      clause='topological.sort_ex: the adjacency maps are defaultdict(OrderedSet) and no hash-ordered set is iterated in sort_ex / visit (the emitted order is a function of the input order)',
+                      model=None if ok3 else {'offending_source_location': bad_it or sorted(factories.items())}, where='; '.join(bad_it) or '%d iterations over ordered containers' % len(iterated), function='ast-scan'))
     return out_extra + [dict(id='scan/_register_item/hard-deps-unfiltered', kind='shape', tag='property', paths=1, status='discharged' if ok else ('failed' if definite_bad else 'unknown'), backend='ast-scan', seconds=0.0,
                  clause='declarative._register_item stores the collected hard dependencies with `node.deps |= deps` (nothing subtracted, self-references included); only weak_deps exclude the declaration itself',
                  model=None if ok else {'offending_source_location': [ast.unparse(n) for n in hard] + removed}, where='; '.join(ast.unparse(n) for n in hard + weak), function='ast-scan')]
